@@ -1,4 +1,5 @@
 import WK.Proofs.C06_Step
+import WK.Gen.C06
 /-
   C06 — Channel runtime state machine keeps watermark and reply invariants.
 
@@ -69,6 +70,14 @@ theorem c06_quorum_reply_covered {s : State} (h : Inv s) (ev : Event) (rp : Repl
     rp.target ≠ 0 ∧ rp.target ≤ (step s ev).1.hw :=
   (step_ok h ev).covered rp hr hok hq
 
+/-- The `mode` a reply carries is the commit mode under which the answered OpID was
+    pending before the event (offset assignment never changes it), so
+    `c06_quorum_reply_covered` speaks about the waiters registered as quorum-mode. -/
+theorem c06_reply_mode_is_waiter_mode {s : State} (h : Inv s) (ev : Event) (rp : Reply)
+    (hr : rp ∈ (step s ev).2.replies) (hok : rp.err = .ok) :
+    ∃ w, lookupW s.pending rp.op = some w ∧ w.mode = rp.mode :=
+  (step_ok h ev).rep_mode rp hr hok
+
 -- ------------------------------------------------------------- reply at most once
 
 theorem filter_len_le_one (l : List Reply) (op : Nat) (hn : (l.map (·.op)).Nodup) :
@@ -84,7 +93,7 @@ theorem filter_len_le_one (l : List Reply) (op : Nat) (hn : (l.map (·.op)).Nodu
         cases hl : (t.filter (fun r => r.op == op)).length with
         | zero => rfl
         | succ n => exact absurd (ha ▸ i2 (by omega)) hn.1
-      simp [List.filter_cons, ha, hz]
+      simp [ha, hz]
     · have hb : (a.op == op) = false := by simpa using ha
       simp only [List.filter_cons, hb, Bool.false_eq_true, if_false, List.map_cons, List.mem_cons]
       exact ⟨i1, fun hp => Or.inr (i2 hp)⟩
@@ -204,9 +213,11 @@ theorem c06_ack_beyond_leo_rejected (s : State) (k e le fo m : Nat) (hm : s.leo 
   · have h0 : ¬ ((m == 0) = true) := by simp; omega
     split
     · next h => exact absurd h h0
-    · split
-      · rfl
-      · next h => exact absurd hm h
+    · first
+        | rfl
+        | (split
+           · rfl
+           · next h => exact absurd hm h)
 
 /-- an AckOffset piggy-backed on a pull beyond the leader's LEO is rejected -/
 theorem c06_pull_ack_beyond_leo_rejected (s : State) (fo off : Nat) (hm : s.leo < off) :
@@ -216,9 +227,11 @@ theorem c06_pull_ack_beyond_leo_rejected (s : State) (fo off : Nat) (hm : s.leo 
   have h0 : ¬ ((off == 0) = true) := by simp; omega
   split
   · next h => exact absurd h h0
-  · split
-    · rfl
-    · next h => exact absurd hm h
+  · first
+      | rfl
+      | (split
+         · rfl
+         · next h => exact absurd hm h)
 
 /-- a stopped ack must report exactly the leader's LEO -/
 theorem c06_stopped_ack_not_at_leo_rejected (s : State) (k e le fo m lv av : Nat) (hm : m ≠ s.leo) :
@@ -239,6 +252,17 @@ theorem c06_unguarded_ack_breaks_invariant :
       [.setMeta ⟨1, 1, 1, 1, 1, [1, 2], [1, 2], 1, 2⟩]).1
     Inv s ∧ ¬ ((applyFollowerAck s 2 9).1.hw ≤ (applyFollowerAck s 2 9).1.leo) := by
   refine ⟨c06_inv_run (c06_inv_init 1 0 0 0 (by decide) (by decide)) _, ?_⟩
+  decide
+
+/-- T tie: the only calls of ApplyFollowerAck in pkg/channel (outside tests) are the three
+    reactor entry points the model mirrors, each dominated by a rejection of its own
+    offset against rc.state.LEO (`>` for the two progress paths, `!=` for the stopped ack).
+    `WK.Gen.C06.ackSites` is regenerated from the source on every check. -/
+theorem c06_ack_call_sites_guarded :
+    WK.Gen.C06.ackSites.map (fun a => (a.file, a.fn, a.arg, a.guard)) =
+      [("pkg/channel/reactor/leader_replication.go", "applyLeaderProgressAck", "req.MatchOffset", "gt"),
+       ("pkg/channel/reactor/leader_replication.go", "applyLeaderPullAckOffset", "req.AckOffset", "gt"),
+       ("pkg/channel/reactor/leader_replication.go", "handleLeaderAck", "event.Ack.MatchOffset", "ne")] := by
   decide
 
 -- ------------------------------------------------------------- non-vacuity
